@@ -4,12 +4,21 @@
   model ops (prec f64 | f32), T1:
     hist_cast G g                     → g                       (same-scalar cast)
     hist_liftproj G g                 → lift∘project round trip (SO2, SE2)
+    hist_lift G g                     → `lift_so3()` / `lift_se3()` of an SO2 / SE2 element (4 / 7 coefficients)
+    hist_project G q                  → `project_so2()` / `project_se2()` of an SO3 / SE3 element (group G = SO2 / SE2)
     hist_ode G id h g v               → one fixed step of stepper `id` through the adaptor model
     hist_run G <program> <checkpts>   → `Hist.step` folded over the program (teacher-forced with the implementation's
                                         checkpoints); destination register after every op
   audit ops (prec f64a | f32a), exact oracle (rationals / 320-bit fixed point):
     hist_step G code ins… outs…       → per-op ε: [matrix error, norm² error, largest operand constraint defect]
     hist_audit G <program> <checkpts> → per checkpoint [err, defect, min q_w, scale, finite, k]
+  program entries `code d a b (+extras)`: 0..10 as in harness/hist.cpp; 11 lift `L[d] = E[a].lift()`,
+  12 project `E[d] = L[a].project()`, 13 initial content of lifted register `L[d]` (extras: its
+  coefficients; a header extension, not an executed op).  Checkpoints `k r coeffs`: `r < 100` element
+  register `E[r]`, `r ≥ 100` lifted register `L[r−100]` (coefficients of the companion type).
+  The exact value of a lift is the block embedding `diag(M, 1)` of the exact matrix of the element
+  (C15.lift_of_history), of a projection the rotation by the yaw `atan2(R₁₀, R₀₀)` (normalised with
+  a 320-bit square root) and the first two translation coordinates.
     hist_odefinal G id n h x0 v xf    → [err vs x0·exp(n·h·v^), defect, min q_w, finite]
     hist_odestage G t x0 v xs         → same with T = t
 -/
@@ -57,6 +66,12 @@ def unitBlock : GDesc → Option (Nat × Nat × Bool)
   | .sek3 k => some (3 * k, 4, true)
   | _ => none
 
+/-- companion type of a group with lifts (`lift_so3` / `lift_se3`) -/
+def liftedDesc : GDesc → Option GDesc
+  | .so2 => some .so3
+  | .se2 => some .se3
+  | _ => none
+
 structure Part where
   d : GDesc
   rep : Nat
@@ -100,6 +115,44 @@ def invB (A : Array BMat) : Option (Array BMat) :=
   A.foldl (fun acc a => match acc, a.inverse with
     | some l, some ai => some (l.push ai)
     | _, _ => none) (some #[])
+
+def bdiv (a b : Int) : Int := (a * ((2 ^ FB : Nat) : Int)) / b
+def bsqrt (a : Int) : Int := if a ≤ 0 then 0 else ((a.toNat * 2 ^ FB).sqrt : Nat)
+
+/-- exact lift: SO2 `R (2×2)` ↦ `diag(R, 1)`; SE2 `[R t; 0 1] (3×3)` ↦ `[diag(R,1) (t,0); 0 1] (4×4)` -/
+def liftB (d : GDesc) (A : Array BMat) : Array BMat :=
+  match d, A[0]? with
+  | .so2, some M => #[BMat.ofFn 3 (fun i j => if i < 2 && j < 2 then M.get i j else if i == j then BigFix.one else 0)]
+  | .se2, some M =>
+    let src (i : Nat) : Nat := if i < 2 then i else 2      -- 4×4 index → 3×3 index (3 ↦ 2)
+    #[BMat.ofFn 4 (fun i j =>
+      if i == 2 || j == 2 then (if i == j then BigFix.one else 0)
+      else M.get (src i) (src j))]
+  | _, _ => A
+
+/-- exact projection: yaw rotation `(R₀₀, R₁₀)/ρ` of an SO3 matrix (3×3) resp. the same with the
+    translation `(t_x, t_y)` of an SE3 matrix (4×4); `none` at the singularity `ρ = 0` -/
+def projectB (d : GDesc) (A : Array BMat) : Option (Array BMat) :=
+  match A[0]? with
+  | none => none
+  | some M =>
+    let c0 := M.get 0 0; let s0 := M.get 1 0
+    let rho := bsqrt (BigFix.mul c0 c0 + BigFix.mul s0 s0)
+    if rho == 0 then none else
+    let c := bdiv c0 rho; let s := bdiv s0 rho
+    match d with
+    | .so2 => some #[BMat.ofFn 2 (fun i j => if i == j then c else if i == 1 then s else -s)]
+    | .se2 => some #[BMat.ofFn 3 (fun i j =>
+        if i == 2 then (if j == 2 then BigFix.one else 0)
+        else if j == 2 then M.get i 3
+        else if i == j then c else if i == 1 then s else -s)]
+    | _ => none
+
+/-- conditioning of the projection: `ρ = ‖(R₀₀, R₁₀)‖` (1 for planar rotations, 0 at the singularity) -/
+def projectRho (A : Array BMat) : Rat :=
+  match A[0]? with
+  | none => 0
+  | some M => BigFix.toRat (bsqrt (BigFix.mul (M.get 0 0) (M.get 0 0) + BigFix.mul (M.get 1 0) (M.get 1 0)))
 
 def maxAbsB (A : Array BMat) : Rat :=
   A.foldl (fun s a => let m := BigFix.toRat (a.maxAbs); if s < m then m else s) 0
@@ -191,6 +244,39 @@ def stepAudit (d : GDesc) (x : Array Rat) : Except String (Array Float) := do
     if x.size != b + 2 * rep then throw "arity"
     let A := elemB ps x b
     finish A (b + rep) (maxAbsB A) (sqns ps x b) [b]
+  | 11 =>
+    -- ins: g (rep)  outs: q (lrep)
+    match liftedDesc d with
+    | none => throw "no-lift"
+    | some ld =>
+      let lps := partsOf ld
+      let lrep := lps.foldl (fun s p => s + p.rep) 0
+      if x.size != b + rep + lrep then throw "arity"
+      let A := elemB ps x b
+      let exact := liftB d A
+      let dist := distB lps x (b + rep) exact
+      let sc := max1 (rmax (maxAbsB A) (maxAbsB exact))
+      let got := sqns lps x (b + rep)
+      let ne := got.foldl (fun m n => rmax m (n - 1).abs) 0
+      return #[ratToFloat (dist / sc), ratToFloat ne, ratToFloat (opDefect [b])]
+  | 12 =>
+    -- ins: q (lrep)  outs: g (rep); 4th reply word: conditioning ρ of the projection
+    match liftedDesc d with
+    | none => throw "no-lift"
+    | some ld =>
+      let lps := partsOf ld
+      let lrep := lps.foldl (fun s p => s + p.rep) 0
+      if x.size != b + lrep + rep then throw "arity"
+      let A := elemB lps x b
+      match projectB d A with
+      | none => throw "projection-singular"
+      | some exact =>
+        let dist := distB ps x (b + lrep) exact
+        let sc := max1 (rmax (maxAbsB A) (maxAbsB exact))
+        let got := sqns ps x (b + lrep)
+        let ne := got.foldl (fun m n => rmax m (n - 1).abs) 0
+        let opd := (sqns lps x b).foldl (fun m n => rmax m (n - 1).abs) 0
+        return #[ratToFloat (dist / sc), ratToFloat ne, ratToFloat opd, ratToFloat (projectRho A)]
   | 9 =>
     -- ins: id h g v
     if x.size != b + 2 + rep + dof + rep then throw "arity"
@@ -222,7 +308,7 @@ structure OpW where
   deriving Inhabited
 
 /-- parse `NE NT NOPS init… ops…`; returns (ne, nt, elemOff, tanOff, ops, offset after ops) -/
-def parseProgram (x : Array Rat) (rep dof : Nat) : Except String (Nat × Nat × Nat × Nat × Array OpW × Nat) := do
+def parseProgram (x : Array Rat) (rep dof : Nat) (lrep : Nat := 0) : Except String (Nat × Nat × Nat × Nat × Array OpW × Nat) := do
   let nat (i : Nat) : Nat := let r := x.getD i 0; if r.num < 0 then 0 else r.num.natAbs / r.den
   if x.size < 3 then throw "short"
   let ne := nat 0; let nt := nat 1; let nops := nat 2
@@ -234,7 +320,7 @@ def parseProgram (x : Array Rat) (rep dof : Nat) : Except String (Nat × Nat × 
     if off + 4 > x.size then throw "short-ops"
     let code := nat off
     let o : OpW := ⟨code, nat (off + 1), nat (off + 2), nat (off + 3), off + 4⟩
-    off := off + 4 + (if code == 8 then dof else if code == 9 then 2 else 0)
+    off := off + 4 + (if code == 8 then dof else if code == 9 then 2 else if code == 13 then lrep else 0)
     ops := ops.push o
   if off > x.size then throw "short-extra"
   return (ne, nt, eo, to, ops, off)
@@ -242,6 +328,8 @@ def parseProgram (x : Array Rat) (rep dof : Nat) : Except String (Nat × Nat × 
 structure HState where
   X : Array (Array BMat)          -- exact registers
   S : Array Rat                   -- running magnitude scale per register
+  XL : Array (Array BMat)         -- exact lifted registers (groups with lifts)
+  SL : Array Rat
   T : Array (Array Rat)           -- tangent registers
   cache : Array (Option (Array BMat))
   ocache : Option (Nat × Rat × Array BMat)   -- last (tangent register, h, exp(h·v^)) of an ode op
@@ -254,11 +342,15 @@ def histAudit (d : GDesc) (x : Array Rat) (fin : Array Bool) : Except String (Ar
   let ps := partsOf d
   let rep := ps.foldl (fun s p => s + p.rep) 0
   let dof := ps.foldl (fun s p => s + p.dof) 0
-  let (ne, nt, eo, to, ops, ckOff) ← parseProgram x rep dof
+  let lps : Array Part := match liftedDesc d with | some ld => partsOf ld | none => #[]
+  let lrep := lps.foldl (fun s p => s + p.rep) 0
+  let lident : Array BMat := lps.map (fun p => BMat.ident p.dim)
+  let (ne, nt, eo, to, ops, ckOff) ← parseProgram x rep dof lrep
   let nat (i : Nat) : Nat := let r := x.getD i 0; if r.num < 0 then 0 else r.num.natAbs / r.den
   let X0 : Array (Array BMat) := Array.ofFn (n := ne) (fun i => elemB ps x (eo + i.val * rep))
   let st0 : HState := {
     X := X0, S := X0.map (fun A => max1 (maxAbsB A)),
+    XL := Array.replicate 8 lident, SL := Array.replicate 8 1,
     T := Array.ofFn (n := nt) (fun i => x.extract (to + i.val * dof) (to + (i.val + 1) * dof)),
     cache := Array.replicate nt none, ocache := none, k := 0, ck := ckOff, out := #[], err := none }
   -- one primitive op
@@ -301,12 +393,34 @@ def histAudit (d : GDesc) (x : Array Rat) (fin : Array Bool) : Except String (Ar
         | none => expB ps (st.T.getD o.b #[]) 0 h
       st := { st with ocache := some (o.b, h, e) }
       st := setR st o.d (mulB Xa e) Sa
+    | 11 =>
+      let V := liftB d Xa
+      st := { st with XL := st.XL.setIfInBounds o.d V, SL := st.SL.setIfInBounds o.d (rmax Sa (max1 (maxAbsB V))) }
+    | 12 =>
+      match projectB d (st.XL.getD o.a #[]) with
+      | some V => st := setR st o.d V (st.SL.getD o.a 1)
+      | none => st := { st with err := some "projection-singular" }
     | _ => st := { st with err := some "bad-op" }
     st := { st with k := st.k + 1 }
     -- checkpoints recorded for this k
     let mut go := true
     while go do
-      if st.ck + 2 + rep ≤ x.size && nat st.ck == st.k then
+      if st.ck + 2 ≤ x.size && nat st.ck == st.k && nat (st.ck + 1) ≥ 100 then
+        -- lifted register L[r − 100]
+        let r := nat (st.ck + 1) - 100
+        let off := st.ck + 2
+        if off + lrep > x.size || lrep == 0 then
+          st := { st with err := some "short-lifted-checkpoint" }
+          go := false
+        else
+          let isFin := (List.range lrep).all (fun i => fin.getD (off + i) true)
+          let dist := distB lps x off (st.XL.getD r #[])
+          let sc := st.SL.getD r 1
+          let (defect, minw) := constraint lps x off
+          st := { st with ck := st.ck + 2 + lrep,
+                          out := st.out ++ #[ratToFloat (dist / sc), ratToFloat defect, ratToFloat minw,
+                                              ratToFloat sc, (if isFin then 1.0 else 0.0), st.k.toFloat] }
+      else if st.ck + 2 + rep ≤ x.size && nat st.ck == st.k then
         let r := nat (st.ck + 1)
         let off := st.ck + 2
         let isFin := (List.range rep).all (fun i => fin.getD (off + i) true)
@@ -329,6 +443,11 @@ def histAudit (d : GDesc) (x : Array Rat) (fin : Array Bool) : Except String (Ar
         for j in [1:len + 1] do
           if i + j < ops.size then st := prim st ops[i + j]!
       i := i + len + 1
+    else if o.code == 13 then
+      -- initial content of a lifted register (header extension, not an executed op)
+      let V := elemB lps x o.extra
+      st := { st with XL := st.XL.setIfInBounds o.d V, SL := st.SL.setIfInBounds o.d (max1 (maxAbsB V)) }
+      i := i + 1
     else
       st := prim st o
       i := i + 1
@@ -340,17 +459,24 @@ def histAudit (d : GDesc) (x : Array Rat) (fin : Array Bool) : Except String (Ar
 section
 variable {α : Type} [Scalar α]
 
-def lpOf (grp : String) (G : LieModel α) : Option (Vec α G.rep → Vec α G.rep) :=
-  if h : G.rep = 2 ∧ grp == "SO2" then some (fun g => h.1 ▸ Hist.liftprojSO2 (h.1 ▸ g))
-  else if h : G.rep = 4 ∧ grp == "SE2" then some (fun g => h.1 ▸ Hist.liftprojSE2 (h.1 ▸ g))
-  else none
+/-- the companion type of the group named `grp` (`Lifting.triv` for groups without lifts) -/
+def liftingOf (grp : String) (G : LieModel α) : Hist.Lifting α G :=
+  if h : G.rep = 2 ∧ grp == "SO2" then
+    ⟨4, fun g => Conv.lift_so3 (h.1 ▸ g), fun q => h.1 ▸ Conv.project_so2 q, SO3.identity⟩
+  else if h : G.rep = 4 ∧ grp == "SE2" then
+    ⟨7, fun g => Conv.lift_se3 (h.1 ▸ g), fun q => h.1 ▸ Conv.project_se2 q, SE3.identity⟩
+  else Hist.Lifting.triv G
+
+def hasLift (grp : String) : Bool := grp == "SO2" || grp == "SE2"
 
 instance {dof : Nat} : Inhabited (Hist.Op α dof) := ⟨.castSame 0 0⟩
 
 def natOfRat (r : Rat) : Nat := if r.num < 0 then 0 else r.num.natAbs / r.den
 
 /-- decode the op list of a program into `Hist.Op`s (loops unrolled) -/
-def decodeOps (G : LieModel α) (x : Array α) (ints : Array Nat) (off nops : Nat) : Array (Hist.Op α G.dof) × Nat := Id.run do
+def decodeOps (G : LieModel α) (x : Array α) (ints : Array Nat) (off nops : Nat) (lrep : Nat := 0) :
+    Array (Hist.Op α G.dof) × Nat × Array (Nat × Nat) := Id.run do
+  let mut linit : Array (Nat × Nat) := #[]              -- (lifted register, word offset) of code-13 entries
   let mut raw : Array (Hist.Op α G.dof × Nat) := #[]   -- op, loop marker (0 = plain; else (len,cnt) encoded separately)
   let mut loops : Array (Nat × Nat × Nat) := #[]      -- (index in raw, len, cnt)
   let mut off := off
@@ -373,6 +499,11 @@ def decodeOps (G : LieModel α) (x : Array α) (ints : Array Nat) (off nops : Na
     | 9 =>
       raw := raw.push (.ode d a b (Hist.stepperOf (ints.getD off 0)) (x.getD (off + 1) (nat 0)), 0)
       off := off + 2
+    | 11 => raw := raw.push (.lift d a, 0)
+    | 12 => raw := raw.push (.project d a, 0)
+    | 13 =>
+      linit := linit.push (d, off)
+      off := off + lrep
     | _ =>
       loops := loops.push (raw.size, d, a)
   -- unroll
@@ -394,12 +525,15 @@ def decodeOps (G : LieModel α) (x : Array α) (ints : Array Nat) (off nops : Na
     | none =>
       out := out.push (raw[i]!).1
       i := i + 1
-  return (out, off)
+  return (out, off, linit)
 
-def destOf {dof : Nat} : Hist.Op α dof → Option Nat
-  | .compose d _ _ => some d | .inverse d _ => some d | .exp d _ => some d | .rplus d _ _ => some d
-  | .mulAssign d _ => some d | .plusAssign d _ => some d | .castSame d _ => some d | .liftproj d _ => some d
-  | .setTan _ _ => none | .ode d _ _ _ _ => some d
+/-- destination of an op: `(lifted?, register)` -/
+def destOf {dof : Nat} : Hist.Op α dof → Option (Bool × Nat)
+  | .compose d _ _ => some (false, d) | .inverse d _ => some (false, d) | .exp d _ => some (false, d)
+  | .rplus d _ _ => some (false, d) | .mulAssign d _ => some (false, d) | .plusAssign d _ => some (false, d)
+  | .castSame d _ => some (false, d) | .liftproj d _ => some (false, d)
+  | .setTan _ _ => none | .ode d _ _ _ _ => some (false, d)
+  | .lift d _ => some (true, d) | .project d _ => some (false, d)
 
 /-- `hist_run`: fold `Hist.step` over the program, report the destination register after every op.
     Teacher forcing: when the request carries the implementation's checkpoint `k r coeffs` for the
@@ -414,25 +548,33 @@ def histRun (grp : String) (x : Array α) (ints : Array Nat) : Except String (Ar
     let eo := 3
     let to := eo + ne * G.rep
     let oo := to + nt * G.dof
-    let (ops, ckOff) := decodeOps G x ints oo nops
+    let C := liftingOf grp G
+    let (ops, ckOff, linit) := decodeOps G x ints oo nops (if hasLift grp then C.lrep else 0)
     if ops.size > 2000 then throw "too-long"
-    let lp : Vec α G.rep → Vec α G.rep := (lpOf grp G).getD id
     let Es : Array (Vec α G.rep) := Array.ofFn (n := ne) (fun i => memoV (ofArray G.rep x (eo + i.val * G.rep)))
     let Ts : Array (Vec α G.dof) := Array.ofFn (n := nt) (fun i => memoV (ofArray G.dof x (to + i.val * G.dof)))
-    let mut s : Hist.State α G := ⟨fun i => Es.getD i G.identity, fun i => Ts.getD i (vzero _)⟩
+    let Ls : Array (Vec α C.lrep) := linit.foldl (fun acc (d, off) =>
+      acc.setIfInBounds d (memoV (ofArray C.lrep x off))) (Array.replicate 8 C.lid)
+    let mut s : Hist.State α G C := ⟨fun i => Es.getD i G.identity, fun i => Ts.getD i (vzero _), fun i => Ls.getD i C.lid⟩
     let mut out : Array α := #[]
     let mut k := 0
     let mut ck := ckOff
     for o in ops do
-      s := Hist.step G lp s o
+      s := Hist.step G C s o
       k := k + 1
       match destOf o with
-      | some d =>
+      | some (false, d) =>
         out := out ++ toArray (s.E d)
         if ck + 2 + G.rep ≤ x.size && ints.getD ck 0 == k && ints.getD (ck + 1) 0 == d then
           let forced : Vec α G.rep := memoV (ofArray G.rep x (ck + 2))
           s := { s with E := Hist.upd s.E d forced }
           ck := ck + 2 + G.rep
+      | some (true, d) =>
+        out := out ++ toArray (s.L d)
+        if ck + 2 + C.lrep ≤ x.size && ints.getD ck 0 == k && ints.getD (ck + 1) 0 == 100 + d then
+          let forced : Vec α C.lrep := memoV (ofArray C.lrep x (ck + 2))
+          s := { s with L := Hist.upd s.L d forced }
+          ck := ck + 2 + C.lrep
       | none => pure ()
     return out
 
@@ -443,9 +585,21 @@ def modelOp (op grp : String) (x : Array α) (ints : Array Nat) : Option (Except
     some (match groupOf (α := α) grp with
       | none => .error "unknown-group"
       | some G =>
-        match lpOf grp G with
-        | none => .error "no-lift"
-        | some lp => if x.size != G.rep then .error "arity" else .ok (toArray (lp (ofArray G.rep x))))
+        if !hasLift grp then .error "no-lift" else
+        if x.size != G.rep then .error "arity" else .ok (toArray ((liftingOf grp G).lp (ofArray G.rep x))))
+  | "hist_lift" =>
+    some (match groupOf (α := α) grp with
+      | none => .error "unknown-group"
+      | some G =>
+        if !hasLift grp then .error "no-lift" else
+        if x.size != G.rep then .error "arity" else .ok (toArray (memoV ((liftingOf grp G).lift (ofArray G.rep x)))))
+  | "hist_project" =>
+    some (match groupOf (α := α) grp with
+      | none => .error "unknown-group"
+      | some G =>
+        if !hasLift grp then .error "no-lift" else
+        let C := liftingOf grp G
+        if x.size != C.lrep then .error "arity" else .ok (toArray (memoV (C.project (memoV (ofArray C.lrep x))))))
   | "hist_ode" =>
     some (match groupOf (α := α) grp with
       | none => .error "unknown-group"
